@@ -527,7 +527,11 @@ func SizesProgram(rng *rand.Rand, id string, cfg Cfg, huge bool) *Program {
 	if huge {
 		// the 512 MiB limit itself
 		p.Ops = append(p.Ops, Op{Op: "put", K: "huge+1", V: "h_", VL: 512<<20 + 1}, Op{Op: "count"},
-			Op{Op: "put", K: "huge", V: "h_", VL: 512 << 20}, Op{Op: "get", K: "huge"}, Op{Op: "reopen"}, Op{Op: "get", K: "huge"}, Op{Op: "del", K: "huge"})
+			Op{Op: "put", K: "huge", V: "h_", VL: 512 << 20}, Op{Op: "get", K: "huge"}, Op{Op: "reopen"}, Op{Op: "get", K: "huge"},
+			// ... and the largest admissible record is also read by the segment iterator: recovery after an unclean
+			// shutdown, then compaction of its segment (a later record makes the segment worth compacting)
+			Op{Op: "tear", V: "", VL: 0}, Op{Op: "get", K: "huge"}, Op{Op: "put", K: "a", V: "after-huge"}, Op{Op: "put", K: "a", V: "after-huge2"},
+			Op{Op: "compact"}, Op{Op: "get", K: "huge"}, Op{Op: "del", K: "huge"})
 	}
 	p.Ops = append(p.Ops, Op{Op: "readall"})
 	return p
